@@ -131,6 +131,7 @@ def search(res, tier, boost=False):
     from .C06 import check_marking
     rng = seed_rng(res.seed, 'C02s')
     from ..meshgen import deep_histories
+    from ..meshlib import gmsh_oracle
     for glue, X, T, run in deep_histories(rng, 8 if tier == 'quick' else 50, 22 if tier == 'quick' else 30):
         pm = PyMesh.create(glue, X, T)
         ops, status = run(pm)
@@ -141,6 +142,8 @@ def search(res, tier, boost=False):
             continue
         for b in oracle_mesh(pm.mesh, X, T, glue, check_nbrs=False)[:2]:
             res.violation('C02:' + b.split(':')[0] + ':deep', dict(clause=b, history=hist))
+        for b in gmsh_oracle(pm.mesh)[:1]:
+            res.violation('C02:gmsh:deep', dict(clause=b, history=hist))
     # meshes built by MeshParametrized on the shipped curves (its constructor refines closed curves with fewer than three
     # pieces before handing the mesh out): bookkeeping after every operation of random histories - the leaf collection is
     # exactly the set of childless elements, element indices are unique (leaves and the whole tree), levels / parent
@@ -194,6 +197,9 @@ def search(res, tier, boost=False):
             if bad:
                 res.violation('C02:%s:parametrized' % bad.split(':')[0], dict(clause=bad, history=hist))
                 break
+        else:
+            for b in gmsh_oracle(mesh)[:1]:
+                res.violation('C02:gmsh:parametrized', dict(clause=b, history=hist))
     n = (6 if tier == 'quick' else 60) * (4 if boost else 1)
     for h in range(n):
         glue, X, T = INITIAL_GRIDS[rng.randrange(len(INITIAL_GRIDS))]
